@@ -27,7 +27,11 @@ PROPS["C08"] = dict(
          "hold unset/0/3/4/9/10/30/90 with or without configured keepalive, GR/LLGR, local-as, 2-/4-octet global AS, peer-as matching / 0 / mismatching) x 8 generated OPENs; "
          "sim case = one such configuration x 1-2 consecutive sessions, each with a generated OPEN, handshake variant (normal, OPEN > 4096, silent in OpenConfirm) and "
          "ending (silence until hold expiry after a last KEEPALIVE/UPDATE at a drawn offset, UPDATE for a non-negotiated family, UPDATE > 4096 without extended message, "
-         "KEEPALIVE > 4096); non-trivial iff the session reached Established or was refused with a NOTIFICATION; distinct by negotiation outcome "
+         "KEEPALIVE > 4096); in 1 of 4 cases the neighbour is not passive and the first session comes about through gobgp's own dialled connection (verifDial hook): alone, or in a "
+         "connection collision (RFC 4271 s6.8) in which the speaker sends a DIFFERENT OPEN (same AS and BGP identifier, other hold time / capabilities) on the connection "
+         "it opened itself - with both OPENs pending when opensent() selects (a surplus accepted connection whose Close() blocks parks the FSM goroutine meanwhile, so both "
+         "select branches are taken) or with the dialled connection completing first; local BGP identifier above and below the peer's; the oracle is unchanged but applies to "
+         "the OPENs exchanged on the SURVIVING connection; non-trivial iff the session reached Established or was refused with a NOTIFICATION; distinct by negotiation outcome "
          "(hold, keepalive, family set with add-path modes, as4, extmsg, peer type) or refusal code",
     assumptions=["RFC 7911 Send/Receive: 1 = able to receive, 2 = able to send; a family without MP capability on either side is not usable even if an ADD-PATH tuple names it",
                  "no MP capability at all from the peer means IPv4 unicast only (RFC 4760 s8 / RFC 4271)",
@@ -48,6 +52,7 @@ PROPS["C08"] = dict(
                 "large_update_accepted_4096", "large_update_accepted_4097", "large_update_accepted_65535", "oversize_update_refused_1/2", "oversize_keepalive_refused_1/2",
                 "emitted_above_4096", "bulk_tables_sent_within_4096",
                 "hold_expiry_instants_checked", "keepalive_cadences_checked", "timing_hold_zero_checked", "openconfirm_silent",
+                "conn_active", "conn_collision", "conn_collision-out-first", "collision_survivor_dialled", "collision_survivor_accepted",
                 "cap_code_1", "cap_code_6", "cap_code_64", "cap_code_65", "cap_code_69", "cap_code_71", "cap_code_200"],
     min_nontrivial=200,
     units=[dict(name="fn", harness="t_server", files=["sim_", "c08_"], run="TestVerifC08Fn",
